@@ -63,7 +63,23 @@ class TwoArgs(Exception):
         self.extra = a
 
 
+def _app_render_error():
+    # an application class deriving from the library's marker class (so that one `except RenderError` clause catches every
+    # render failure): raised by an expression it is an ordinary exception - nothing has formatted it yet
+    if not _APP:
+        from chameleon.exc import RenderError
+
+        class AppRenderError(RenderError):
+            pass
+        _APP.append(AppRenderError)
+    return _APP[0]('widget', 7)
+
+
+_APP = []
+
+
 MAKERS = {
+    'AppRenderError': _app_render_error,
     'KeyError': lambda: KeyError('k'),
     'ValueError': lambda: ValueError('bad value', 3),
     'ZeroDivisionError': lambda: ZeroDivisionError('division by zero'),
@@ -613,8 +629,49 @@ def layer_literal_use_failures(ctx, n):
         finish(ctx, problems, 'innermost-record-differs', what, {'kind': 'literal-use', 'src': src})
 
 
+# --------------------------------------------------------------------------
+def layer_instruction_sites(ctx, n):
+    """${...} inside processing instructions (other than the code block) are expressions like any other: a failure in one
+    of them names that expression and the place where it is written."""
+    from chameleon import PageTemplate
+    rng = ctx.rng
+    for i in range(n):
+        lead = rng.choice(['', '\n', '<!-- c -->\n  ', '<b>é</b> ', 'l1\nl2\n   '])
+        k = rng.randint(1, 3)
+        parts = ['${f(%d)}' % (j + 1) for j in range(k)]
+        target = rng.choice(['php', 'xml-stylesheet', 'x', 'php-x'])
+        glue = rng.choice([' ', ' and ', '\n  ', ' href='])
+        pi = '<?%s %s%s?>' % (target, glue.join(parts), rng.choice(['', ' ', '\n']))
+        src = lead + '<p>' + rng.choice(['', 'text ${f(0)} ']) + pi + '</p>' + rng.choice(['', '\n${f(9)}'])
+        rid = rng.randint(1, k)
+        clsname = rng.choice(sorted(MAKERS))
+
+        def f(x, rid=rid, clsname=clsname):
+            if x == rid:
+                raise MAKERS[clsname]()
+            return 'v%d' % x
+        needle = 'f(%d)' % rid
+        off = src.index(needle)
+        want = [(needle, '<string>') + line_col(src, off)]
+        what = 'template %r, %s raised by %s (inside a processing instruction)' % (src, clsname, needle)
+        replay = {'kind': 'pi', 'src': src, 'rid': rid, 'cls': clsname}
+        ctx.mon('instruction-sites')
+        ctx.case(key=('pi', k, rid, clsname, target, bool(lead)), nontrivial=True)
+        try:
+            t = PageTemplate(src)
+        except Exception as e:
+            ctx.violation('valid-template-rejected', 'template %r: %s: %s' % (src, type(e).__name__, e), replay)
+            continue
+        try:
+            out = t(f=f, **hostile_context())
+            ctx.violation('failure-swallowed', what + ': render returned %r' % out[:80], replay)
+        except BaseException as e:       # noqa: the monitor must see everything
+            check_exception(ctx, e, clsname, want, what, replay)
+
+
 def run(ctx):
     monitors.install(ctx, tokalg=False)
+    layer_instruction_sites(ctx, 40 if ctx.quick else 400)
     layer_string_templates(ctx, 150 if ctx.quick else 1000)
     layer_file_chain(ctx, 30 if ctx.quick else 200)
     layer_inplace_macro(ctx, 60 if ctx.quick else 400)
